@@ -95,7 +95,7 @@ Proof. vm_compute. split; reflexivity. Qed.
 (* ------------------------------------------------------------------------------------------------------
    Added in build session 4 (statements re-stated from the proof files by harness tooling; each is closed by
    exact). *)
-From SplipyModel Require Import Model.EvalForms Proofs.EvalFormsProofs Transfer.ParamObj Transfer.ParamOps Transfer.ParamOps2.
+From SplipyModel Require Import Model.EvalForms Proofs.EvalFormsProofs Transfer.ParamObj Transfer.ParamOps Transfer.ParamOps2 Model.DefaultObj Proofs.DefaultObjProofs.
 Open Scope R_scope.
 Theorem C02_grid_spec :
   forall (F : Type) (H : Num F) (tol : F) (o : obj F) (lists g : list (list F)),
@@ -168,4 +168,112 @@ Theorem C02_executed_is_proved_pointwise :
          obj_eval_pointwise (Q2R tol) (objQ2R o) (map (map Q2R) lists).
 Proof. exact @obj_eval_pointwise_transfer. Qed.
 Print Assumptions C02_executed_is_proved_pointwise.
+
+Theorem C02_default_object_is_identity :
+  forall tol : R,
+         0 < tol ->
+         forall bases : list (basis R),
+         Forall (wf_basis_R tol) bases ->
+         (forall i : nat, (i < length bases)%nat -> b_per1 (nth i bases dflt_basis) = 0%nat) ->
+         (forall i : nat, (i < length bases)%nat -> (2 <= b_order (nth i bases dflt_basis))%nat) ->
+         forall ts : list R,
+         (forall i : nat, (i < length bases)%nat -> in_dom tol (nth i bases dflt_basis) (nth i ts 0)) ->
+         obj_eval tol (default_obj bases) ts = Ok (snapped_point tol bases ts (default_dim bases)).
+Proof. exact @default_obj_identity. Qed.
+Print Assumptions C02_default_object_is_identity.
+
+Theorem C02_default_object_is_identity_coordinates :
+  forall (tol : R) (bases : list (basis R)) (ts : list R),
+         0 < tol ->
+         Forall (wf_basis_R tol) bases ->
+         (forall i : nat, (i < length bases)%nat -> b_per1 (nth i bases dflt_basis) = 0%nat) ->
+         (forall i : nat, (i < length bases)%nat -> (2 <= b_order (nth i bases dflt_basis))%nat) ->
+         (forall i : nat, (i < length bases)%nat -> in_dom tol (nth i bases dflt_basis) (nth i ts 0)) ->
+         exists v : list R,
+           obj_eval tol (default_obj bases) ts = Ok v /\
+           length v = default_dim bases /\
+           (forall c : nat,
+            (c < length bases)%nat ->
+            coord c v = snap1 (b_knots (nth c bases dflt_basis)) tol (nth c ts 0) /\
+            Rabs (coord c v - nth c ts 0) < tol /\
+            ((forall j : nat,
+              (j < length (b_knots (nth c bases dflt_basis)))%nat ->
+              ~ Rabs (kn (b_knots (nth c bases dflt_basis)) j - nth c ts 0) < tol) -> coord c v = nth c ts 0)) /\
+           (forall c : nat, (length bases <= c)%nat -> coord c v = 0).
+Proof. exact @default_obj_identity_coord. Qed.
+Print Assumptions C02_default_object_is_identity_coordinates.
+
+Theorem C02_default_object_is_identity_on_domain :
+  forall (tol : R) (bases : list (basis R)) (ts : list R),
+         0 < tol ->
+         Forall (wf_basis_R tol) bases ->
+         (forall i : nat, (i < length bases)%nat -> b_per1 (nth i bases dflt_basis) = 0%nat) ->
+         (forall i : nat, (i < length bases)%nat -> (2 <= b_order (nth i bases dflt_basis))%nat) ->
+         (forall i : nat,
+          (i < length bases)%nat -> b_start (nth i bases dflt_basis) <= nth i ts 0 <= b_end (nth i bases dflt_basis)) ->
+         obj_eval tol (default_obj bases) ts = Ok (snapped_point tol bases ts (default_dim bases)).
+Proof. exact @default_obj_identity_on_domain. Qed.
+Print Assumptions C02_default_object_is_identity_on_domain.
+
+Theorem C02_default_rational_object_is_identity :
+  forall (tol : R) (bases : list (basis R)) (ts : list R),
+         0 < tol ->
+         Forall (wf_basis_R tol) bases ->
+         (forall i : nat, (i < length bases)%nat -> b_per1 (nth i bases dflt_basis) = 0%nat) ->
+         (forall i : nat, (i < length bases)%nat -> (2 <= b_order (nth i bases dflt_basis))%nat) ->
+         (forall i : nat, (i < length bases)%nat -> in_dom tol (nth i bases dflt_basis) (nth i ts 0)) ->
+         obj_eval tol (default_obj_rat bases) ts = Ok (snapped_point tol bases ts (default_dim bases)).
+Proof. exact @default_obj_rat_identity. Qed.
+Print Assumptions C02_default_rational_object_is_identity.
+
+Theorem C02_default_object_shape :
+  forall bases : list (basis R),
+         o_bases (default_obj bases) = bases /\
+         o_shape (default_obj bases) = map b_nfun bases /\
+         length (o_cps (default_obj bases)) = prodl (map b_nfun bases) /\
+         o_dim (default_obj bases) = (if length bases =? 1 then 2%nat else length bases) /\
+         o_rat (default_obj bases) = false /\
+         Forall (fun P : list R => length P = o_dim (default_obj bases)) (o_cps (default_obj bases)).
+Proof. exact @default_obj_shape. Qed.
+Print Assumptions C02_default_object_shape.
+
+Theorem C02_default_object_wf :
+  forall (tol : R) (bases : list (basis R)), Forall (wf_basis_R tol) bases -> wf_obj_R tol (default_obj bases).
+Proof. exact @default_obj_wf. Qed.
+Print Assumptions C02_default_object_wf.
+
+Theorem C02_evaluated_point_in_reported_bounding_box :
+  forall (tol : R) (o : obj R) (ts v : list R),
+         0 < tol ->
+         wf_obj_R tol o ->
+         o_rat o = false ->
+         obj_eval tol o ts = Ok v ->
+         length (obj_bounding_box o) = o_dim o /\
+         length v = o_dim o /\
+         (forall c : nat,
+          (c < o_dim o)%nat ->
+          fst (nth c (obj_bounding_box o) (0, 0)) <= coord c v <= snd (nth c (obj_bounding_box o) (0, 0))).
+Proof. exact @eval_in_bounding_box. Qed.
+Print Assumptions C02_evaluated_point_in_reported_bounding_box.
+
+Theorem C02_bounding_box_is_control_point_box :
+  forall (o : obj R) (c : nat),
+         (c < o_dim o)%nat ->
+         o_cps o <> [] ->
+         let lohi := nth c (obj_bounding_box o) (0, 0) in
+         Forall (fun P : list R => fst lohi <= coord c P <= snd lohi) (o_cps o) /\
+         (exists P : list R, In P (o_cps o) /\ coord c P = fst lohi) /\
+         (exists P : list R, In P (o_cps o) /\ coord c P = snd lohi).
+Proof. exact @bbox_is_control_point_box. Qed.
+Print Assumptions C02_bounding_box_is_control_point_box.
+
+Theorem C02_tensor_sum_separable :
+  forall rows : list (list R),
+         Forall (fun N : list R => rsum N = 1) rows ->
+         forall (c : nat) (g : nat -> R),
+         (c < length rows)%nat ->
+         tsum rows (fun flat : nat => g (nth c (unravel (map (length (A:=R)) rows) flat) 0%nat)) =
+         lcf (nth c rows []) g.
+Proof. exact @tsum_separable. Qed.
+Print Assumptions C02_tensor_sum_separable.
 
